@@ -113,7 +113,7 @@ def main():
             sys.exit(1)
         try:
             t0 = time.time()
-            code, o = sh(f"python3 run/check.py {c} --tier quick", cwd=VERIF, timeout=3000)
+            code, o = sh(f"VERIF_NO_EVIDENCE=1 python3 run/check.py {c} --tier quick", cwd=VERIF, timeout=3000)
             lines = [l for l in o.splitlines() if l.startswith(("VIOLATION", "KNOWN-FINDING", "TOOL-ERROR", "DRIFT")) or l.startswith("  key=")]
             results[c] = {"exit": code, "wall_s": round(time.time() - t0), "lines": lines[:8]}
             print(f"  check {c}: exit={code}  " + " | ".join(lines[:3])[:300])
